@@ -7,8 +7,21 @@ use common::{Cli, Report};
 pub fn extra(rep: &Report, id: &str, thorough: bool) {
     if id != "C07" {
         crate::world::host(rep, id, thorough);
+        crate::app::host(rep, id, thorough);
+        return;
     }
-    crate::app::host(rep, id, thorough);
+    // C07: both parts take 17 s of real time (the first Keep Alive is due 16 s after Login Success); side by side
+    std::thread::scope(|s| {
+        s.spawn(|| crate::app::host(rep, id, thorough));
+        s.spawn(|| {
+            let n = 2 * std::thread::available_parallelism().map(|n| n.get()).unwrap_or(16) + 8;
+            let (players, viols) = crate::world::crowd_kept_alive(n);
+            for (k, t, replay) in viols {
+                rep.violation(common::Violation { key: k, text: t, replay, weight: 6_500_000 });
+            }
+            rep.set("world_players_inside_slow_routing_at_once", serde_json::json!(players));
+        });
+    });
 }
 
 pub fn run(cli: Cli) -> ! {
